@@ -342,6 +342,55 @@ pub fn run(ctx: &Ctx) -> Result<(), String> {
     if let Some(e) = failed.lock().unwrap().take() {
         return Err(e);
     }
+    // observed behaviour: the number of worker threads the real server RUNS equals the written
+    // num_workers, also above the number of CPUs of this machine (the documented range is >= 1)
+    {
+        let cpus = std::thread::available_parallelism().map(|n| n.get()).unwrap_or(1);
+        let mut ns: Vec<usize> = ctx.tier.pick(vec![1, 3, cpus + 1, 2 * cpus + 1], vec![1, 2, 3, cpus - 1, cpus, cpus + 1, cpus + 3, 2 * cpus + 1, 40]);
+        ns.retain(|n| *n >= 1);
+        ns.sort();
+        ns.dedup();
+        let mut cases = vec![];
+        for &n in &ns {
+            for src in [Source::File, Source::Env] {
+                cases.push((n, src));
+            }
+        }
+        par_for(cases.len(), 1, |k, _| {
+            let (n, src) = cases[k];
+            let r = crate::proc::start_serving(
+                &|port| {
+                    let mut w = Written::base(port);
+                    w.set("num_workers", &n.to_string());
+                    w
+                },
+                src,
+                n,
+                Duration::from_secs(20),
+            );
+            let (mut sp, _port) = match r {
+                Ok(x) => x,
+                Err(e) => {
+                    *failed.lock().unwrap() = Some(e);
+                    return;
+                }
+            };
+            std::thread::sleep(Duration::from_millis(100));
+            evals.fetch_add(1, Relaxed);
+            nontrivial.fetch_add(1, Relaxed);
+            let names: std::collections::BTreeSet<String> = sp.thread_names().into_iter().filter(|x| x.starts_with("worker-")).collect();
+            let want: std::collections::BTreeSet<String> = (0..n).map(|i| format!("worker-{}", i)).collect();
+            if sp.try_status().is_some() || names != want {
+                ctx.violation("effective-differs-from-written", "num_workers", &format!("{:?}/observed-threads", src), json!({"kind":"behaviour-workers","source":format!("{:?}", src),"written_num_workers":n,"cpus":cpus,"worker_threads_observed":names.len(),"exit":format!("{:?}", sp.try_status()),
+                    "message":format!("num_workers {} is written; the running server has {} worker threads", n, names.len())}));
+            }
+            sp.kill();
+        });
+        if let Some(e) = failed.lock().unwrap().take() {
+            return Err(e);
+        }
+        ctx.cov("num_workers_observed_for", json!(ns));
+    }
     // observed behaviour: the batch size the server RUNS with equals the written one. The real
     // configuration path (YAML file -> make_config -> Server::new) is used in-process; 2b+1 requests
     // are queued before the first step, so the batches must be exactly {b, b, 1}.
